@@ -197,8 +197,8 @@ func (f *frame) havocModsT(h *Heap, mods map[string]bool, all bool, touched map[
 				if _, isT := touched[k]; isT {
 					continue
 				}
-				if tp, ok := touchedTypePrefix(touched, k); ok && tp {
-					continue // component of a touched struct type that has no touched object: unchanged
+				if strings.HasPrefix(k, "F.") && e.w.ownType(k) {
+					continue // touches clause: no other pre-existing object changes (fresh objects are invisible here)
 				}
 			}
 			e.havocHeapComp(h, k)
@@ -214,17 +214,79 @@ func (f *frame) havocModsT(h *Heap, mods map[string]bool, all bool, touched map[
 		}
 		old := before[k]
 		if old == "" {
-			old = e.initial(k)
+			if h.pending(k) {
+				old = e.fresh("Hv."+k, so)
+			} else {
+				old = e.initial(k)
+			}
 		}
 		elem := strings.TrimSuffix(strings.TrimPrefix(so, "(Array Int "), ")")
-		t := old
+		prev := old
 		for _, r := range refs {
-			t = fmt.Sprintf("(store %s %s %s)", t, r, e.fresh("Hobj."+k, elem))
+			v := e.fresh("Hobj."+k, elem)
+			if lt, ok := e.leafT[k]; ok {
+				if strings.HasSuffix(k, ".l") || strings.HasSuffix(k, ".c") || strings.HasSuffix(k, ".o") {
+					e.assume(fmt.Sprintf("(and (<= 0 %s) (<= %s %s))", v, v, maxCap))
+				} else if rf := rangeFact(lt, v); rf != "" && !strings.HasSuffix(k, ".b") {
+					e.assume(rf)
+				}
+			}
+			nv := e.define("H."+k, so, fmt.Sprintf("(store %s %s %s)", prev, r, v))
+			e.storeDefs[nv] = storeDef{prev: prev, idx: r, val: v}
+			prev = nv
 		}
-		h.m[k] = e.define("H."+k, so, t)
+		h.m[k] = prev
 		h.dirty[k] = true
 	}
 	f.keepPrivate(h, before, except)
+}
+
+// ownType: the component holds a field of a struct type declared in the verified packages.
+func (w *World) ownType(comp string) bool {
+	tp := strings.TrimPrefix(typePrefixOf(comp), "P.")
+	for tp2 := tp; strings.HasPrefix(tp2, "P."); {
+		tp2 = strings.TrimPrefix(tp2, "P.")
+		tp = tp2
+	}
+	for sp := range w.scope {
+		if strings.HasPrefix(tp, sp.Pkg.Name()+".") {
+			return true
+		}
+	}
+	return false
+}
+
+// frameTrivial: version cur is reached from version old only by stores at touched objects or at fresh allocations
+// (which are above pre), possibly merged over branches.
+func (e *Engine) frameTrivial(cur, old string, touched []string, depth int) bool {
+	if depth > 400 {
+		return false
+	}
+	for cur != old {
+		if d, ok := e.storeDefs[cur]; ok {
+			okIdx := strings.HasPrefix(d.idx, "|alloc.") || strings.HasPrefix(d.idx, "(sub |alloc.")
+			for _, t := range touched {
+				if t == d.idx {
+					okIdx = true
+				}
+			}
+			if !okIdx {
+				return false
+			}
+			cur = d.prev
+			continue
+		}
+		if vs, ok := e.mergeDefs[cur]; ok {
+			for _, v := range vs {
+				if !e.frameTrivial(v, old, touched, depth+1) {
+					return false
+				}
+			}
+			return true
+		}
+		return false
+	}
+	return true
 }
 
 // touchedOf evaluates the contract's touches clause in the function's entry state.
@@ -266,8 +328,9 @@ func (f *frame) frameObs(kind string, pc string, from, to *Heap, pos token.Pos) 
 		return
 	}
 	var ks []string
+	_ = tys
 	for k := range e.comps {
-		if strings.HasPrefix(k, "F.") && tys[typePrefixOf(k)] {
+		if strings.HasPrefix(k, "F.") && e.w.ownType(k) {
 			ks = append(ks, k)
 		}
 	}
@@ -283,6 +346,9 @@ func (f *frame) frameObs(kind string, pc string, from, to *Heap, pos token.Pos) 
 		}
 		if !has || cur == old {
 			continue
+		}
+		if e.frameTrivial(cur, old, touched[k], 0) {
+			continue // every store between the two versions is at a touched object or at storage allocated here
 		}
 		e.n++
 		bv := q(fmt.Sprintf("r?%d", e.n))
@@ -864,17 +930,25 @@ func (f *frame) dynamicCall(in ssa.Instruction, c *ssa.CallCommon, args []Val, p
 	e.unmod["callback "+types.TypeString(c.Value.Type(), func(p *types.Package) string { return p.Name() })]++
 	// A7: callbacks do not touch library-internal state; they may fill the objects they are handed.
 	mods := map[string]bool{"E.uint8": true}
-	for _, a := range c.Args {
+	touched := map[string][]string{}
+	for i, a := range c.Args {
 		if p, ok := under(a.Type()).(*types.Pointer); ok {
 			if _, isStruct := under(p.Elem()).(*types.Struct); isStruct {
 				e.storeComps(&Loc{Kind: LObj, Ref: "_", T: p.Elem()}, mods)
+				if pv, ok := args[i].(PtrV); ok && pv.L.Kind == LObj {
+					var pairs [][2]string
+					e.objComps(pv.L, &pairs)
+					for _, pr := range pairs {
+						touched[pr[0]] = append(touched[pr[0]], pr[1])
+					}
+				}
 			}
 		}
 	}
 	for k := range ghostSorts {
 		mods["G."+k] = true
 	}
-	f.havocMods(h, mods, false)
+	f.havocModsT(h, mods, false, touched, nil) // A7: a callback changes only the objects it is handed
 	if resT != nil {
 		f.setResult(in, f.resultVal(nm, resT))
 	}
